@@ -104,7 +104,7 @@ ENTRIES: list[Entry] = [
     Entry('timer', 'kopf/_core/engines/daemons.py', '_timer', {
         'initial_delay_check': r'if handler\.initial_delay is not None',
         'main_loop': r'while not stopper\.is_set\(\)',
-        'reset_if_done': r'if state\.done',
+        'reset_if_done': r'if state\.done and \(not state\[handler\.id\]\.failure\)',
         'fresh_state': r'state = progression\.State\.from_scratch\(\)\.with_handlers\(\[handler\]\)',
         'idle_check': r'if handler\.idle is not None',
         'idle_wait': r'while not stopper\.is_set\(\) and clock\(\) - memory\.idle_reset_time < handler\.idle',
@@ -117,7 +117,7 @@ ENTRIES: list[Entry] = [
         'passed': r'passed_duration = clock\(\) - started',
         'remaining': r'remaining_delay = handler\.interval - passed_duration % handler\.interval',
         'interval_check': r'if handler\.interval is not None',
-        'idle_only_wait': r'while memory\.idle_reset_time <= started',
+        'idle_only_wait': r'while memory\.idle_reset_time <= started and \(not stopper\.is_set\(\)\)',
     }),
 ]
 
